@@ -230,7 +230,7 @@ def generate_dependent_dispatch(tup, handlers, next_call, slf, name, err, nerr):
         if len(relevant) > 1:
             # The keyexpr method only works if there is only one condition to check.
             keyexpr = keyed = None
-        codes = [codegen(types[k], argname(k)) for k in relevant]
+        codes = [f"({codegen(types[k], argname(k))})" for k in relevant]
         conj = " and ".join(codes)
         if not conj:  # pragma: no cover
             # Not sure if this can happen
